@@ -324,6 +324,15 @@ public:
          const Queue<T> & q = *qs[z];
          out += verif::Fmt("|h%u c%u %c:", q._itemCount ? q._headIndex : 0u, q._queueSize, (q._queue == q._smallQueue) ? 'i' : 'h');
          for (uint32 i = 0; i < q.GetNumItems(); i++) { int t = q[i].tag; int rk = 0; if (t) { std::map<int, int>::iterator it = rank.find(t); if (it == rank.end()) { rk = (int)rank.size() + 1; rank[t] = rk; } else rk = it->second; } out += verif::Fmt("%d.%d,", q[i].key, rk); }
+         // Owning item types: what sits in the UNUSED slots is part of the state -- EnsureSize(n,true), AddTailAndGet() and AddHeadAndGet() expose those slots
+         // without resetting them, so two queues that differ only there have different futures and must not be merged.  (Trivially copyable types: the
+         // content of unused slots is indeterminate by contract and the harness overwrites newly exposed items, so it is left out.)
+         if (TR::kTracked) {
+            std::vector<bool> live(q._queueSize, false);
+            if (q._queue) for (uint32 i = 0; i < q._itemCount; i++) live[(q._headIndex + i) % q._queueSize] = true;
+            if (q._queue) for (uint32 p = 0; p < q._queueSize; p++) if (!live[p] && (q._queue[p].key != 0 || q._queue[p].tag != 0)) out += verif::Fmt("~%u:%d.%d,", p, q._queue[p].key, q._queue[p].tag ? 1 : 0);
+            if (q._queue != q._smallQueue) for (uint32 p = 0; p < ARRAYITEMS(q._smallQueue); p++) if (q._smallQueue[p].key != 0 || q._smallQueue[p].tag != 0) out += verif::Fmt("~s%u:%d.%d,", p, q._smallQueue[p].key, q._smallQueue[p].tag ? 1 : 0);
+         }
       }
    }
    void Outcome(const World & w, std::string & out) const { out = w.lastResult + "/" + Show(w.mq).substr(0, 0) + verif::Fmt("%u/%u", (unsigned)w.mq.size(), (unsigned)w.mr.size()); for (size_t i = 0; i < w.mq.size(); i++) out += verif::Fmt("%d,", w.mq[i].key); }
